@@ -714,6 +714,7 @@ type cond =
 | NonNull of (job_view -> n)
 | ValIn of (job_view -> n) * n list
 | ValBetween of (job_view -> n) * n * n
+| ValAtLeast of (job_view -> n) * n
 | MultipleOf of (job_view -> n) * n
 | SameAs of (job_view -> n) * (job_view -> n)
 | Neg of cond
@@ -730,6 +731,10 @@ type cond =
 | SglTotalAtMost of n
 
 val pon_pli : job_view -> n
+
+val seg_in_ok : sgl_seg -> bool
+
+val seg_out_ok : sgl_seg -> bool
 
 val sgl_total : sgl_seg list -> n
 
@@ -775,8 +780,6 @@ val hashLenNonZero : cond
 
 val hasAad : cond
 
-val u64_max : n
-
 val mB_MAX_LEN16 : n
 
 val r_src : rule
@@ -798,6 +801,8 @@ val r_dec_keys_if_dec : rule
 val r_key_len : n list -> rule
 
 val r_iv_len : n list -> rule
+
+val r_cipher_len_min : n -> rule
 
 val r_cipher_len : n -> n -> rule
 
@@ -946,6 +951,12 @@ val assoc_rules : n -> (n * rule list) list -> rule list option
 val cipher_rules : n -> rule list
 
 val hash_rules : n -> rule list
+
+val r_common_dir : rule
+
+val r_common_mode : rule
+
+val r_common_hash : rule
 
 val common_rules : rule list
 
